@@ -46,18 +46,30 @@ def main(argv=None):
     findings = load_findings()
     results, units, assumptions, errors, undecided = [], {}, set(), [], []
     paths = 0
+    bounded = []
     for o in outs:
         if o['error']:
             errors.append((o['job'], o['error']))
         if o['undecided']:
-            undecided.append({'obligation': o['job'], 'reason': o['undecided']})
+            # a unit outside the verifier's reach on this tree: a bounded native stand-in (stated bound, never counted as proved) may decide it
+            fb = registry.bounded_for(o['job']) if hasattr(registry, 'bounded_for') else None
+            done = False
+            if fb:
+                p = subprocess.run(['/venv/bin/python', os.path.join(ROOT, fb)], capture_output=True, text=True, timeout=600, cwd='/repo', env=dict(os.environ, PYTHONPATH='/repo'))
+                last = (p.stdout.strip().splitlines() or [''])[-1]
+                if p.returncode == 0:
+                    bounded.append({'unit': o['job'], 'stand_in': fb, 'verdict': 'clean within bound', 'detail': last[:300], 'reason_not_proved': o['undecided']}); done = True
+                elif p.returncode == 1:
+                    results.append({'name': '%s/bounded/%s' % (prop, os.path.basename(fb)), 'prop': prop, 'verdict': 'refuted', 'backend': 'bounded-native', 'time': 0, 'finding': None,
+                                    'script': 'bounded stand-in %s found a failing input: %s' % (fb, last[:400]), 'job': o['job'], 'bounded_input': last[:2000]}); done = True
+            if not done:
+                undecided.append({'obligation': o['job'], 'reason': o['undecided']})
         for u in o['units']:
             units[u['unit']] = u
         assumptions.update(o['assumptions']); paths += o['paths']
         for r in o['results']:
             r['job'] = o['job']; results.append(r)
     # extra = lemma queries / native bounded checks / conformance runs: callables returning result dicts in the same format
-    bounded = []
     for fn in extra:
         try:
             er = fn()
@@ -95,12 +107,18 @@ def main(argv=None):
         rep = {'property': prop, 'obligation': name, 'script': script, 'model': r.get('model', {}), 'job': r.get('job'), 'solver': r.get('backend'),
                'solver_output': 'sat (counter-model found): ' + script}
         confirmed = None
+        if r.get('bounded_input'):
+            rep['native_replay'] = {'failing_input_found_by_bounded_enumeration_on_the_real_code': r['bounded_input']}
+            confirmed = True
         try:
+            if confirmed:
+                raise RuntimeError('already confirmed by the bounded stand-in')
             from replay import drivers
             confirmed, obs = drivers.replay(prop, name, r)
             rep['native_replay'] = obs
         except Exception as ex:
-            rep['native_replay'] = 'no driver: %s' % ex
+            if not confirmed:
+                rep['native_replay'] = 'no driver: %s' % ex
         if confirmed is False:
             # the real code satisfies the clause on this scenario: abstraction too coarse -> undecided, not a violation
             undecided.append({'obligation': name, 'reason': 'counter-model does not replay on the real code: ' + script}); continue
